@@ -133,8 +133,9 @@ macro_rules! str_type {
     (@eq $ctx:expr, $name:literal, $v:expr, $o:expr, $s:expr, 0) => {};
     (@eq $ctx:expr, $name:literal, $v:expr, $o:expr, $s:expr, 1) => {{
         let other = format!("{}x", $s);
+        let flipped: String = $s.chars().map(|c| if c.is_ascii_lowercase() { c.to_ascii_uppercase() } else { c.to_ascii_lowercase() }).collect();
         $ctx.call("== &str");
-        if !(*$v == $s) || *$v == other.as_str() {
+        if !(*$v == $s) || *$v == other.as_str() || (flipped != $s && *$v == flipped.as_str()) {
             $ctx.fail("C14.eq-str", feats($name, "== &str"), format!("{}: comparison of {} with a string is not plain text equality", $name, show($s.as_bytes())));
         }
     }};
@@ -142,7 +143,8 @@ macro_rules! str_type {
         let other = format!("{}x", $s);
         $ctx.call("== str/&str/String");
         let ok = *$v == *$s && *$v == $s && *$v == $s.to_string() && $o == *$s && $o == $s && $o == $s.to_string();
-        let bad = *$v == *other.as_str() || *$v == other.as_str() || *$v == other.clone() || $o == *other.as_str() || $o == other.as_str() || $o == other.clone();
+        let flipped: String = $s.chars().map(|c| if c.is_ascii_lowercase() { c.to_ascii_uppercase() } else { c.to_ascii_lowercase() }).collect();
+        let bad = (flipped != $s && (*$v == *flipped.as_str() || *$v == flipped.as_str() || *$v == flipped.clone() || $o == flipped.as_str())) || *$v == *other.as_str() || *$v == other.as_str() || *$v == other.clone() || $o == *other.as_str() || $o == other.as_str() || $o == other.clone();
         if !ok || bad {
             $ctx.fail("C14.eq-str", feats($name, "== str/&str/String"), format!("{}: comparison of {} with a string is not plain text equality", $name, show($s.as_bytes())));
         }
@@ -199,8 +201,9 @@ macro_rules! bytes_type {
     (@eq $ctx:expr, $name:literal, $v:expr, $o:expr, $s:expr, 0) => {};
     (@eq $ctx:expr, $name:literal, $v:expr, $o:expr, $s:expr, 1) => {{
         let other = format!("{}x", $s);
+        let flipped: String = $s.chars().map(|c| if c.is_ascii_lowercase() { c.to_ascii_uppercase() } else { c.to_ascii_lowercase() }).collect();
         $ctx.call("== &str");
-        if !(*$v == $s) || *$v == other.as_str() {
+        if !(*$v == $s) || *$v == other.as_str() || (flipped != $s && *$v == flipped.as_str()) {
             $ctx.fail("C14.eq-str", feats($name, "== &str"), format!("{}: comparison of {} with a string is not plain text equality", $name, show($s.as_bytes())));
         }
     }};
@@ -208,7 +211,8 @@ macro_rules! bytes_type {
         let other = format!("{}x", $s);
         $ctx.call("== str/&str/String/[u8]");
         let ok = *$v == *$s && *$v == $s && *$v == $s.to_string() && *$v == *$s.as_bytes() && *$v == $s.as_bytes() && $o == *$s && $o == $s && $o == $s.to_string() && $o == *$s.as_bytes();
-        let bad = *$v == *other.as_str() || *$v == other.as_str() || *$v == other.clone() || *$v == *other.as_bytes() || $o == *other.as_str() || $o == other.clone();
+        let flipped: String = $s.chars().map(|c| if c.is_ascii_lowercase() { c.to_ascii_uppercase() } else { c.to_ascii_lowercase() }).collect();
+        let bad = (flipped != $s && (*$v == *flipped.as_str() || *$v == flipped.as_str() || *$v == flipped.clone() || $o == flipped.as_str())) || *$v == *other.as_str() || *$v == other.as_str() || *$v == other.clone() || *$v == *other.as_bytes() || $o == *other.as_str() || $o == other.clone();
         if !ok || bad {
             $ctx.fail("C14.eq-str", feats($name, "== str/&str/String/[u8]"), format!("{}: comparison of {} with a string is not plain text equality", $name, show($s.as_bytes())));
         }
